@@ -142,8 +142,6 @@ def sort_of(ty: Ty):
 
 class V:
     """A symbolic Python value."""
-    __slots__ = ("ty", "t", "items", "isnone", "val", "py")
-
     def __init__(self, ty, t=None, items=None, isnone=None, val=None, py=None):
         self.ty = ty
         self.t = t
